@@ -56,4 +56,7 @@ for d in sorted(Path('/verif/seeded').iterdir()):
     res[d.name] = sorted(set(fired)) or 'MISSED'
 for k, v in res.items():
     print(k, v)
-print('missed:', [k for k, v in res.items() if v == 'MISSED'])
+# seeds that stay undetected for a stated reason (value-level behaviour outside the technique) are listed in seeded/not_caught.json
+nc = json.loads(Path('/verif/seeded/not_caught.json').read_text()) if Path('/verif/seeded/not_caught.json').exists() else {}
+print('not caught (recorded with reason):', sorted(k for k, v in res.items() if v == 'MISSED' and k in nc))
+print('missed:', [k for k, v in res.items() if v == 'MISSED' and k not in nc])
